@@ -1957,8 +1957,10 @@ impl<E: Effect> Executor<E> {
         let first = &values[0];
         let all_equal = values.iter().all(|value| self.values_equal(first, value));
 
+        // The result is only ever tested for truthiness (the pattern code follows it with `Not`),
+        // so it must be non-nil exactly when the operands are equal — also when they are nil.
         let result = if all_equal {
-            first.clone()
+            Value::ok()
         } else {
             Value::nil()
         };
